@@ -1,15 +1,16 @@
 """R-reach / R-guard rules for C08, C09, C10, C11."""
 import re
 from facts import callee_name, strip_refs
-from guards import guards_at, describe, eval_int, dominating_edges
+from guards import guards_at, describe, eval_int, dominating_edges, peel_ptr, callers_of, anchors, inlined_calls
 from callgraph import ALLOC_SITES, RELEASE_SITES, BORROW_ONLY_LEAVES
-from typestate import Solver, entry_tuples, T
+from typestate import Solver, entry_tuples, T, READ_PRIMS, WRITE_PRIMS
 
 HEAP_MOD = "repr::heap_buffer::"
 
 COPY_LEAVES = ("core::ptr::copy", "core::ptr::copy_nonoverlapping", "core::intrinsics::copy", "core::intrinsics::copy_nonoverlapping",
                "core::slice::<impl [T]>::copy_from_slice", "core::slice::<impl [T]>::clone_from_slice", "core::ptr::write_bytes")
-WRITE_LEAVES = COPY_LEAVES + ("core::ptr::write", "core::char::methods::<impl char>::encode_utf8", "core::ptr::mut_ptr::<impl *mut T>::write")
+WRITE_LEAVES = COPY_LEAVES + ("core::ptr::write", "core::char::methods::<impl char>::encode_utf8", "core::ptr::mut_ptr::<impl *mut T>::write") + tuple(WRITE_PRIMS)
+COPY_LEAVES = COPY_LEAVES + tuple(k for k in WRITE_PRIMS if "copy" in k)
 
 # bodies whose job is to produce a std String (outside every LeanString property)
 STRING_PRODUCERS = {
@@ -85,10 +86,10 @@ def rule_C08(ctx):
         ok, why = True, ""
         ds = b.defs.get(0, [])
         for (bb, si, x) in ds:
-            if si != "term" or callee_name(x) != "core::ptr::read":
+            if si != "term" or callee_name(x) not in READ_PRIMS:
                 ok, why = False, "return value assigned from something other than ptr::read"
             else:
-                a = strip_refs(b.origin_operand(x["args"][0]))
+                a = peel_ptr(b, b.origin_operand(x["args"][0]))
                 if a != ("param", 1):
                     ok, why = False, "ptr::read of something other than the receiver (%s)" % describe(b, a)
         ctx.ob("C08-bitwise", b.path, "return-is-ptr-read(self)", ok and bool(ds), how="return place = core::ptr::read(self) at %d site(s)" % len(ds), detail=why or "no definition of the return place")
@@ -130,9 +131,18 @@ def rule_C09_gates(ctx, rule="C09-gate"):
     F = ctx.F
     M = mis(F)
     ctx.need(rule, "repr::MAX_INLINE_SIZE", "const", M == 2 * F.ptr_bytes, "MAX_INLINE_SIZE evaluates to %s, expected two machine words (%d)" % (M, 2 * F.ptr_bytes), how="MAX_INLINE_SIZE = %s = 2 words" % M)
+    sites = []
     for b, bb, t in heap_gate_sites(ctx):
-        gs = guards_at(b, bb)
-        site = site_name(b, bb)
+        if b.path not in anchors(F) and b.path not in GATE_ROOT:
+            # a private helper that only wraps the allocating call (e.g. an extracted
+            # `spill_to_heap`): the decision is taken by its callers, judge the guards there
+            cs = callers_of(F, b.path)
+            if cs:
+                for cb, cbb, ct in cs:
+                    sites.append((cb, cbb, ct, guards_at(cb, cbb) + guards_at(b, bb), "%s via %s" % (site_name(cb, cbb), b.path)))
+                continue
+        sites.append((b, bb, t, guards_at(b, bb), site_name(b, bb)))
+    for b, bb, t, gs, site in sites:
         under_heap = any(g[0] == "pred" and g[1] == "repr::Repr::is_heap_buffer" and g[3] is True and g[2] is not None and strip_refs(g[2]) == ("param", 1) for g in gs)
         thr = [g for g in gs if g[0] == "cmp" and g[2] is not None and g[3] is None]
         if under_heap and not thr:
@@ -235,6 +245,10 @@ def rule_C09_inline_edits(ctx, rule="C09-inline"):
                 gs = guards_at(b, bb) if bb is not None else []
                 if any(g[0] == "cmp" and g[2] == M + 1 and g[3] is None for g in gs):
                     continue
+                if fn not in anchors(F):
+                    cs = callers_of(F, fn)
+                    if cs and all(any(g[0] == "cmp" and g[2] == M + 1 and g[3] is None for g in guards_at(cb, cbb)) for cb, cbb, ct in cs):
+                        continue
                 rest.append((fn, site, callee, line))
             bad = rest
         ctx.ob(rule, r, "inline-walk", not bad, how="%d calls on feasible inline paths, none can allocate%s" % (len(ev), " outside the guarded gate" if r in grow else ""),
@@ -347,7 +361,7 @@ def rule_C10(ctx):
                 if s["k"] == "assign" and s["rv"]["k"] == "aggregate" and s["rv"].get("adt") == "repr::static_buffer::StaticBuffer":
                     found = True
                     d = describe(sb, sb.origin_operand(s["rv"]["fields"][0]))
-                    good = re.search(r"new_unchecked\(\(?core::str::<impl str>::as_ptr\(p1\)", d) is not None
+                    good = re.search(r"new_unchecked\((\(|core::ptr::const_ptr::<impl \*const T>::cast_mut\()?core::str::<impl str>::as_ptr\(p1\)", d) is not None
                     ctx.ob("C10-borrow", sb.path, "ptr-field", good, how="ptr = NonNull::new_unchecked(text.as_ptr() as *mut _)", detail="StaticBuffer stores pointer %s, not the caller's text pointer" % d)
         ctx.need("C10-borrow", sb.path, "aggregate", found, "StaticBuffer aggregate not found in StaticBuffer::new")
     # under kind=Static: no allocation, no store through the pointer
@@ -380,5 +394,18 @@ def rule_C10(ctx):
                         under_heap = any(g[0] == "pred" and g[1] == "repr::Repr::is_heap_buffer" and g[3] is True for g in gs)
                         ctx.ob("C10-mutptr", path, "cast-of-field0", under_heap, how="*mut derived from Repr.0 only on the is_heap_buffer() edge", line=s.get("line", 0),
                                detail="mutable pointer derived from the storage pointer without a heap guard (would alias borrowed static text)")
+    # the same through pointer-method casts (`self.0.cast_mut().cast::<u8>()`)
+    for path, body in F.bodies.items():
+        for bb, t in body.calls():
+            if callee_name(t) in ("core::ptr::const_ptr::<impl *const T>::cast_mut",) and t["args"]:
+                e = strip_refs(body.origin_operand(t["args"][0]))
+                if e[0] == "field" and e[2] == 0 and body.local_ty(t["dest"]["l"]).startswith("*mut"):
+                    n += 1
+                    gs = guards_at(body, bb)
+                    under_heap = any(g[0] == "pred" and g[1] == "repr::Repr::is_heap_buffer" and g[3] is True for g in gs)
+                    if "static_buffer" in path:
+                        continue
+                    ctx.ob("C10-mutptr", path, "cast_mut-of-field0", under_heap, how="*mut derived from Repr.0 only on the is_heap_buffer() edge", line=t.get("line", 0),
+                           detail="mutable pointer derived from the storage pointer without a heap guard (would alias borrowed static text)")
     ctx.need("C10-mutptr", "crate", "sites", n >= 1, "no `self.0 as *mut u8` site found (as_slice_mut changed shape?)", how="%d site(s)" % n)
     ctx.take_ts(["R-contract.kind=Static", "R-contract.Modifiable"])
